@@ -318,16 +318,14 @@ void Search::iter_search()
             result = search(_position, _current_depth, min_bound, max_bound,
                             info + 1);
 
+            // a re-search only ever widens the window (delta grows every round),
+            // so the loop ends with the full window at the latest; narrowing the
+            // other side to the failed result lets an unstable root alternate
+            // between fail-high and fail-low for ever
             if (result <= min_bound)
-            {
                 min_bound = std::max(min_bound - delta, -VALUE_INFINITE);
-                max_bound = std::min(result + 1, VALUE_INFINITE);
-            }
             else if (result >= max_bound)
-            {
-                min_bound = std::max(result - 1, -VALUE_INFINITE);
                 max_bound = std::min(max_bound + delta, VALUE_INFINITE);
-            }
             else
                 break;
 
